@@ -486,7 +486,20 @@ static void cmd_destroydomain(const std::vector<std::string> &tk)
 static void cmd_attached(const std::vector<std::string> &tk)
 {
     dd_edge &e = edgeOf(tk[1]);
-    emit(std::string("attached ") + (e.getForest() ? "1" : "0"));
+    // an edge without a forest is inert: it holds no node
+    if (e.getForest()) emit("attached 1");
+    else emit(std::string("attached 0 node=") + std::to_string(long(e.getNode())));
+}
+
+// reattach A F : the (possibly detached) edge object A is attached to forest F; it then
+// is the transparent edge of F
+static void cmd_reattach(const std::vector<std::string> &tk)
+{
+    dd_edge &e = edgeOf(tk[1]);
+    ForestInfo &fi = forestOf(tk[2]);
+    e.attach(fi.F);
+    EDGEFOR[tk[1]] = tk[2];
+    showEdge(tk[1]);
 }
 
 // constinto E F v : F->createConstant(v, E) with E attached to whatever it is
@@ -1474,6 +1487,7 @@ static void run(const std::vector<std::string> &tk)
     else if (c == "destroyforest") cmd_destroyforest(tk);
     else if (c == "destroydomain") cmd_destroydomain(tk);
     else if (c == "attached") cmd_attached(tk);
+    else if (c == "reattach") cmd_reattach(tk);
     else if (c == "constinto") cmd_constinto(tk);
     else if (c == "applyinto") cmd_applyinto(tk);
     else if (c == "iterpast") cmd_iterpast(tk);
